@@ -63,6 +63,7 @@ pub struct C09 {
 	gen: HistGen,
 	history_len: usize,
 	pre: Option<(usize, u64)>,
+	late_pending: bool,
 	rpc: Option<(usize, u32, RpcEndpoints, Option<SecretKey>)>,
 	decodes: u64,
 }
@@ -201,6 +202,7 @@ impl C09 {
 			gen,
 			history_len,
 			pre: None,
+			late_pending: false,
 			rpc: None,
 			decodes: 0,
 		}
@@ -591,11 +593,24 @@ impl Prop for C09 {
 
 	fn before(&mut self, run: &mut Run, step: &Step) {
 		self.pre = None;
+		self.late_pending = false;
 		if let Op::Custom { name, args } = &step.op {
 			if name == "decode" {
 				let w = args["w"].as_u64().unwrap_or(0) as usize;
 				if w < run.ex.world.wallets.len() && run.ex.world.is_open(w) {
 					self.pre = Some((w, run.ex.world.dir_digest(w)));
+					// a late-locked send awaiting its reply (known finding: the late-lock
+					// step reserves before the reply is verified)
+					self.late_pending = run.model.deals.iter().any(|d| {
+						d.late_lock
+							&& d.payer == Some(w)
+							&& run
+								.ex
+								.world
+								.get_context(w, d.id.as_bytes())
+								.map(|c| c.late_lock_args.is_some())
+								.unwrap_or(false)
+					});
 				}
 			}
 		}
@@ -644,7 +659,15 @@ impl Prop for C09 {
 				if dig0 != dig1 {
 					v.push(run.viol(
 						"rejected_leaves_state",
-						&format!("rejected_input_changed_state:{}", entry),
+						&format!(
+							"rejected_input_changed_state:{}{}",
+							entry,
+							if self.late_pending && entry.contains("finalize") {
+								":late_lock_pending"
+							} else {
+								""
+							}
+						),
 						format!(
 							"wallet {}: {} rejected a faulted ({}) input ({}) but the wallet directory changed",
 							w,
